@@ -22,10 +22,17 @@ case "$ID" in
     build dbg cargo build --profile dbg --offline
     build chk cargo build --release --offline --features index-positions,prohibit-unsafe
     if [ "${1:-}" = "--replay" ]; then exec "$B/rel/release/mc" C06 "$@"; fi
-    rm -f "$B"/c06_dbg.* "$B"/c06_chk.*
-    "$B/dbg/dbg/mc" c06-worker "$B/c06_dbg" || { echo "MACHINERY: C06 dbg worker failed"; exit 3; }
-    "$B/chk/release/mc" c06-worker "$B/c06_chk" || { echo "MACHINERY: C06 chk worker failed"; exit 3; }
-    C06_WORKERS="$B/c06_dbg,$B/c06_chk" exec "$B/rel/release/mc" C06 "$@" ;;
+    # The checked variants run first (they stop cleanly at a broken invariant); the unchecked release
+    # build runs as a child too, because there a broken invariant is undefined behaviour and may kill it.
+    W=""
+    for v in dbg chk rel; do
+      rm -f "$B/c06_$v".*
+      case $v in dbg) exe="$B/dbg/dbg/mc";; chk) exe="$B/chk/release/mc";; rel) exe="$B/rel/release/mc";; esac
+      "$exe" c06-worker "$B/c06_$v"; rc=$?
+      if [ $rc -ge 128 ]; then echo "signal $((rc-128))" > "$B/c06_$v.crash";
+      elif [ $rc -ne 0 ]; then echo "MACHINERY: C06 worker $v failed with exit $rc"; exit 3; fi
+    done
+    C06_WORKERS="$B/c06_rel,$B/c06_dbg,$B/c06_chk" exec "$B/rel/release/mc" C06 "$@" ;;
   C15)
     build rel cargo build --release --offline
     build idx cargo build --release --offline --features index-positions
